@@ -18,7 +18,7 @@ RULE = (
     "in three, 'cross' models where each derivative depends on an intermediate of another state plus monitor-only "
     "intermediates, so the state order hangs on tie-breaks), each link "
     "a small expression (+ - * /, exp, sin, abs, Conditional, integer powers) of the previous link and base "
-    "variables; floor / Mod only on state-independent arguments x resampled reference-defined points. Oracle: "
+    "variables; floor / Mod of state-independent and of state-dependent arguments (dividend and divisor) x resampled reference-defined points. Oracle: "
     "states_matrix order == sorted_states() == generated state_index; rhs_matrix contains no intermediate "
     "symbol and its numeric value (sympy at 60 digits) equals the 256-bit reference derivative; "
     "jacobi_matrix[i, j] equals the total derivative d f_i / d x_j through all intermediates computed by an "
@@ -41,7 +41,10 @@ def chain_model(draw, max_depth):
     c = G.Ctx(draw, G.QUICK)
 
     def small(prev):
-        k = draw(st.integers(0, 9))
+        # Mod / floor of state-dependent arguments only in chains of moderate depth: sympy re-evaluates every
+        # Mod whose argument is substituted (gcd and sign extraction over the whole expanded argument), which
+        # takes minutes at depth 30 - slow, not wrong, and not what this check is about
+        k = draw(st.integers(0, 12 if depth <= 8 else 9))
         b = ["var", draw(st.sampled_from(base))]
         p = ["var", prev] if prev else ["var", draw(st.sampled_from(sn))]
         lit = ["num", draw(st.sampled_from(["0.5", "2", "1.5", "0.25", "3"]))]
@@ -63,6 +66,18 @@ def chain_model(draw, max_depth):
             return ["bin", "+", ["bin", "**", p, ["num", "2"]], b] if draw(st.booleans()) else ["bin", "*", ["call", "exp", ["bin", "/", ["neg", ["bin", "**", p, ["num", "2"]]], ["num", "10"]]], b]
         if k == 8:
             return ["bin", "+", p, ["call", "floor", ["bin", "*", ["var", draw(st.sampled_from(pn))], lit]]]
+        if k == 10:
+            # floor of a state-dependent argument (piecewise constant: contributes nothing to the Jacobian)
+            # (each link mentions the previous one once: twice would double the expanded expression per link)
+            if draw(st.booleans()):
+                return ["bin", "+", p, ["call", "floor", ["bin", "*", ["var", draw(st.sampled_from(sn))], lit]]]
+            return ["bin", "+", ["call", "floor", ["bin", "*", p, lit]], b]
+        if k == 11:
+            # Mod of a state-dependent dividend: d Mod(a, b) = da where it is differentiable
+            return ["bin", "+", ["call", "Mod", ["bin", "*", p, lit], ["num", draw(st.sampled_from(["2", "3", "1.5"]))]], b]
+        if k == 12:
+            # the state in the divisor: d Mod(a, b) = da - floor(a/b) db
+            return ["bin", "+", ["call", "Mod", ["bin", "+", b, ["num", "7"]], ["bin", "+", ["bin", "**", p, ["num", "2"]], ["num", "1"]]], ["var", draw(st.sampled_from(base))]]
         return ["bin", "*", ["call", "atan", p], lit]
 
     assigns = []
@@ -160,6 +175,9 @@ def check_case(case):
         left = sorted(str(s) for s in mat.free_symbols if str(s) not in allowed)
         if left:
             raise Violation(f"C20:{what}-contains-unexpanded-names", dict(ctx, left=left))
+    if jm.has(sp.Derivative, sp.Subs):
+        # an entry that still contains d/dx of something is not the partial derivative: it has no value
+        raise Violation("C20:jacobian-contains-unevaluated-derivative", dict(ctx, entry=str(next(e for e in jm if e.has(sp.Derivative, sp.Subs)))[:400]))
     n_ok = 0
     for pt in case["points"]:
         ev = refsem.Evaluator(model, pt)
@@ -196,6 +214,6 @@ def check_case(case):
 
 CLAIM = {
     "text": "Bounded random exploration: for generated models with dependency chains up to depth 40/60, diamonds, conditionals and abs, the symbolic state vector, right-hand side and Jacobian returned by the library are evaluated numerically and compared with the 256-bit reference derivative and an independent total differentiation through all intermediates; construction must succeed for every depth. No absence claim.",
-    "note": "Trusted: vlib/refsem.py, vlib/diff.py, sympy's numeric evaluation of its own expressions. floor / Mod of state-dependent arguments are excluded (sympy leaves their derivatives unevaluated).",
+    "note": "Trusted: vlib/refsem.py, vlib/diff.py, sympy's numeric evaluation of its own expressions. floor is piecewise constant and d Mod(a, b) = da - floor(a/b) db away from the jumps (points on a jump are ambiguous and resampled).",
     "technique": "property-based testing (Hypothesis) with a reference-model oracle (independent differentiation)",
 }
